@@ -86,6 +86,33 @@ def find_scope(unit_obj, path, kinds):
     return cur
 
 
+def call_refs(scope, unit, cpath, called, refs, problems):
+    """The `calls` list of a scope after correlate holds every resolved procedure once (whatever the
+    number of names it was called under) and the names that were not resolved as strings.  Per
+    called name: unresolved when the name is among the strings; else the entity FORD's own call
+    resolution (_find_chain_item) gives for it, which must be in the list."""
+    got = list(getattr(scope, "calls", []))
+    strings = {c.lower() for c in got if isinstance(c, str)}
+    names = []
+    for name in called:
+        if name.lower() not in names:
+            names.append(name.lower())
+    for key in names:
+        ref = {"unit": unit, "cls": "CProc", "id": key, "ent": None}
+        if cpath:
+            ref["path"] = cpath
+        if key not in strings:
+            item = scope._find_chain_item([key])
+            if item is None or not any(item is c for c in got):
+                problems.append(f"call {key} in {unit}/{'/'.join(cpath)}: neither kept as a string nor resolved to an entry of calls")
+                continue
+            ref["ent"] = ident(item)
+        refs.append(ref)
+    extra = [c for c in got if isinstance(c, str) and c.lower() not in names]
+    if extra:
+        problems.append(f"calls of {unit}/{'/'.join(cpath)} hold names that were not called: {extra}")
+
+
 def observe(units, files, where, unit_order):
     """Run the implementation with the units' files read in `unit_order`.
     Returns (obs, order, problems) or ("EXC:<Type>", None, [])."""
@@ -152,19 +179,7 @@ def observe(units, files, where, unit_order):
                 refs.append({"unit": m.name.lower(), "cls": cls, "id": r["id"].lower(),
                              "ent": None if (got is None or isinstance(got, str)) else ident(got)})
             if u["calls"]:
-                # program.calls keeps one entry per distinct called name, in statement order:
-                # the resolved object, or the name as a string when nothing was found
-                names = []
-                for name in u["calls"]:
-                    if name.lower() not in names:
-                        names.append(name.lower())
-                got = list(getattr(m, "calls", []))
-                if len(got) != len(names):
-                    problems.append(f"calls of {m.name}: {len(got)} entries for {len(names)} called names")
-                else:
-                    for key, c in zip(names, got):
-                        refs.append({"unit": m.name.lower(), "cls": "CProc", "id": key,
-                                     "ent": None if isinstance(c, str) else ident(c)})
+                call_refs(m, m.name.lower(), [], u["calls"], refs, problems)
             # nested scopes: their dictionaries and the references they make
             for path, kinds, nd in G.nested_nodes(u):
                 sc = find_scope(m, path, kinds)
@@ -185,18 +200,7 @@ def observe(units, files, where, unit_order):
                     got = v.proto[0] if getattr(v, "proto", None) else None
                     refs.append({"unit": m.name.lower(), "path": cpath, "cls": "CType" if r["what"] == "type" else "CAbs",
                                  "id": r["id"].lower(), "ent": None if (got is None or isinstance(got, str)) else ident(got)})
-                names = []
-                for r in nd["refs"]:
-                    if r["what"] == "call" and r["id"].lower() not in names:
-                        names.append(r["id"].lower())
-                if names:
-                    got = list(getattr(sc, "calls", []))
-                    if len(got) != len(names):
-                        problems.append(f"calls of {m.name}/{'/'.join(path)}: {len(got)} entries for {len(names)} names")
-                    else:
-                        for key, c in zip(names, got):
-                            refs.append({"unit": m.name.lower(), "path": cpath, "cls": "CProc", "id": key,
-                                         "ent": None if isinstance(c, str) else ident(c)})
+                call_refs(sc, m.name.lower(), cpath, [r["id"] for r in nd["refs"] if r["what"] == "call"], refs, problems)
         obs_units.sort(key=lambda o: o["name"])
         refs.sort(key=lambda f: (f["unit"], f.get("path", []), f["cls"], f["id"]))
         nested.sort(key=lambda q: (q["unit"], q["path"]))
